@@ -493,3 +493,117 @@ def h_translate_e2e(formula, L, until=False):
             bounded=dict(evaluations=n_eval, trace_length=L, formula=formula,
                          failures=fails))
     return run_
+
+
+# ---------------------------------------------------------------------------
+# formulas that mix past and future operators (until=True): on a finite prefix
+# the until-testers guess the future (several solutions), the PAST testers are
+# still functions of the prefix
+
+E2E_MIXED = [
+    r'(p U q) /\ (-X q)', r'([] p) \/ (--X q)', r'(<> q) /\ (-[] p)', r'(p U (-<> q))', r'[] (p => -<> q)',
+    r'(p S q) /\ <> p', r'[] ((-X p) => <> q)', r'((p U q) U (-X p)) /\ (q S p)',
+    r'<> [] (-X p)', r'(<> q) \/ --X p',
+]       # past operators are applied to past / propositional operands only (a past
+        # operator over a future one inherits the until-tester's guess)
+
+
+def h_translate_mixed(formula, L):
+    def run_():
+        import re as _re
+        dvars, r, init, trans, win = past.translate(formula, until=True)
+        names = ['p', 'q'] + list(dvars)
+        win_text = ' '.join(win) if isinstance(win, (list, tuple)) else str(win)
+        future = {nm for nm in dvars if _re.search(r'(?<![A-Za-z0-9_])' + _re.escape(nm) + r'(?![A-Za-z0-9_])', win_text)}
+        pastv = [nm for nm in dvars if nm not in future]
+        fails = list()
+        n_eval = 0
+
+        def mk(tag):
+            vals = {nm: [z3.Bool(f'{nm}@{i}' if nm in ('p', 'q') else f'{nm}@{i}{tag}') for i in range(L + 1)]
+                    for nm in names}
+
+            class F:
+                def __init__(self, nm):
+                    self.nm = nm
+
+                def __call__(self, n):
+                    return vals[self.nm][z3.simplify(n).as_long()]
+            den = traces.TraceDen({nm: F(nm) for nm in names})
+            facts = [den.at(init, z3.IntVal(0))] + [den.at(trans, z3.IntVal(i)) for i in range(L)]
+            return vals, facts
+        v1, f1 = mk('')
+        v2, f2 = mk('!2')
+        from ovc import engine as eng
+        if pastv:
+            n_eval += 1
+            differ = z3.Or(*[v1[nm][i] != v2[nm][i] for nm in pastv for i in range(L)])
+            st, model, _, _ = eng.check_sat(f1 + f2 + [differ])
+            if st != 'unsat':
+                tr = None
+                if model is not None:
+                    tr = {nm: [z3.is_true(model.eval(v1[nm][k], model_completion=True)) for k in range(L)] for nm in ('p', 'q')}
+                fails.append(dict(name=f'translate("{formula}", until=True): the testers of the PAST operators have exactly one solution along every finite prefix (whatever the until-testers guess)',
+                                  status=st, trace=tr, past_testers=pastv, init=str(init)[:200]))
+        n_eval += 1
+        inputs = [v1[nm][i] for nm in ('p', 'q') for i in range(L + 1)]
+        aux = [v1[nm][i] for nm in dvars for i in range(L + 1)]
+        ex = z3.ForAll(inputs, z3.Exists(aux, z3.And(*f1))) if aux else z3.And(*f1)
+        st, _, _, _ = eng.check_sat([z3.Not(ex)])
+        if st != 'unsat':
+            fails.append(dict(name=f'translate("{formula}", until=True): initial condition and transition relation have a solution on every finite prefix', status=st))
+        return dict(records=[], stats=dict(), functions={
+            'omega.logic.past.translate': dict(source_lines=0, cut={}, dropped='run natively, whole pipeline: bounded in trace length', stubs=[])},
+            bounded=dict(evaluations=n_eval, trace_length=L, formula=formula, past_testers=pastv, until_testers=sorted(future), failures=fails))
+    return run_
+
+
+def h_conj_disj():
+    """`omega.logic.syntax.conj` / `disj` (used to join the testers' initial
+    conditions and transition relations): the result denotes the conjunction /
+    disjunction of the operands, for operand lists that contain the literals
+    TRUE / FALSE (complete for lists of length <= 3 over four operands)."""
+    def run_():
+        import itertools
+        import omega.logic.syntax as stx
+        import omega.logic.lexyacc as lexyacc
+        parser = lexyacc.Parser()
+        P, Q = z3.Bool('p'), z3.Bool('q')
+        val = {'TRUE': z3.BoolVal(True), 'FALSE': z3.BoolVal(False), 'p': P, '(~ q)': z3.Not(Q)}
+
+        def den(t):
+            if hasattr(t, 'operator'):
+                xs = [den(x) for x in t.operands]
+                op = t.operator
+                if op == '~':
+                    return z3.Not(xs[0])
+                if op == '/\\':
+                    return z3.And(*xs)
+                if op == '\\/':
+                    return z3.Or(*xs)
+                raise ValueError(op)
+            v = t.value
+            return {'TRUE': z3.BoolVal(True), 'FALSE': z3.BoolVal(False), 'p': P, 'q': Q}[v]
+        fails = list()
+        n = 0
+        from ovc import engine as eng
+        for k in range(0, 4):
+            for ops in itertools.product(sorted(val), repeat=k):
+                for fname, f, comb, unit in (('conj', stx.conj, z3.And, True), ('disj', stx.disj, z3.Or, False)):
+                    n += 1
+                    try:
+                        s = f(list(ops))
+                        got = den(parser.parse(s))
+                    except Exception as e:
+                        fails.append(dict(name=f'syntax.{fname} returns a formula', operands=list(ops), error=repr(e)[:120]))
+                        continue
+                    want = comb(*[val[o] for o in ops]) if ops else z3.BoolVal(unit)
+                    st, _, _, _ = eng.check_sat([got != want])
+                    if st != 'unsat' and len(fails) < 6:
+                        fails.append(dict(name=f'syntax.{fname}(operands) denotes the {"conjunction" if unit else "disjunction"} of the operands (also with TRUE / FALSE among them)',
+                                          operands=list(ops), result=s))
+        return dict(records=[], stats=dict(), functions={
+            'omega.logic.syntax.conj': dict(source_lines=0, cut={}, stubs=[], dropped='run natively: complete for lists of length <= 3 over {TRUE, FALSE, p, (~ q)}'),
+            'omega.logic.syntax.disj': dict(source_lines=0, cut={}, stubs=[], dropped='same')},
+            bounded=dict(evaluations=n, exhaustive='operand lists of length <= 3 over {TRUE, FALSE, p, (~ q)}', failures=fails))
+    return run_
